@@ -9,7 +9,7 @@ LEVELS = {
                 "get_longest_common_prefix,get_prefix_ordering,cmp} equals the bit-string operations for all labels of 0..256 bits; the model is "
                 "tied to the code by a correspondence check (extracted model vs implementation on exhaustive small labels, every byte boundary, "
                 "adversarial patterns) and an independent bit-string oracle; AzksElementSet operations are modelled and tied the same way.",
-        "note": TB + "Set-operation statements (sorted = unsorted) are decided by correspondence + oracle; see DESIGN.md.",
+        "note": TB + "Set operations: proved for the forms the insertion uses (partition around a node label that all elements extend, common prefix of a sorted equal-length set, the toolchain's binary search on any partitioned list); contains_prefix and partition with non-extending elements are decided by correspondence + oracle.",
     },
     "C08": {
         "text": "Machine-checked proof for all epochs/versions/ranges (unbounded N) that the future markers of n meet what any proof for m>n must "
@@ -45,8 +45,8 @@ LEVELS = {
         "note": TB + "Single-task semantics; the concurrent read-fill vs write-through race is a recorded limitation (K3), multi-thread runs are a search only.",
     },
     "C01": {
-        "text": "Proof (Coq) of publish's control flow on the directory model: a batch repeating a label is rejected without effect, a batch of re-submissions returns the unchanged epoch hash, a changing publish advances the epoch by exactly one and returns the new tree's root hash. The functional core - the root hash equals the hash of the canonical trie over exactly the leaves the history prescribes - is checked on every run by recomputing each epoch's root hash from the publish history alone with a specification trie defined independently of the insertion algorithm (bit for bit, both configurations), and by comparing the whole database with the model after every publish.",
-        "note": TB + "PARTIAL: the refinement theorem insertion-model = canonical trie is not proved yet; that part is translation validation (model vs code) plus specification evaluation per run.",
+        "text": "Proof (Coq) of publish's control flow on the directory model: a batch repeating a label is rejected without effect, a batch of re-submissions returns the unchanged epoch hash, a changing publish advances the epoch by exactly one and returns the new tree's root hash. The functional core is a machine-checked refinement theorem: for every history of batches of distinct 256-bit labels and every hash configuration, the tree built by the model of batch_insert_nodes (binary-search partition on sorted sets included) is canonical, holds exactly the prescribed leaves (label, value, epoch of insertion) with correct last_epoch / min_descendant_epoch annotations, and its root hash equals the hash of the specification trie defined independently of the algorithm. The same equation is re-evaluated on the implementation on every run (specification hash recomputed from the publish history alone, bit for bit, both configurations) and the whole database is compared with the model after every publish.",
+        "note": TB + "The step from publish requests to batches of distinct labels (VRF outputs do not collide; derive_all) is covered by the state correspondence, not by a theorem.",
     },
     "C02": {
         "text": "Proof (Coq): unpublished labels are refused; every returned lookup proof reports the label's latest (value, version, epoch) together with the current epoch hash and its existence and marker membership proofs verify against that hash for every tree and hash function. Lookup generation and the full client verifier are modelled and tied to the code (structural equality of proofs, equality of verdicts and results) over random histories with forced power-of-two versions; every label is looked up (single and batched) after queried epochs and compared with an independent truth table.",
@@ -90,7 +90,7 @@ LEVELS = {
         "note": TB + "PARTIAL: the end-to-end statement for all interleavings is decided by schedule exploration on the real code; K3 (read-fill racing a write-through on one cache key) is a stated limitation outside the explored schedule granularity.",
     },
     "C14": {
-        "text": "The model has no parallelism / cache / feature / object-state parameter: every configuration of the implementation is compared with the same model outputs and with the sequential uncached run (epoch hashes, stored state, verification outcomes, verified results), incl. a second binary without the preload / parallel-VRF features, restarts before every call and the read-only wrapper. Proved in Coq: batch insertion of distinct equal-length leaves does not depend on their order (sorting is canonical).",
+        "text": "The model has no parallelism / cache / feature / object-state parameter: every configuration of the implementation is compared with the same model outputs and with the sequential uncached run (epoch hashes, stored state, verification outcomes, verified results), incl. a second binary without the preload / parallel-VRF features, restarts before every call and the read-only wrapper. Proved in Coq: batch insertion of distinct equal-length leaves does not depend on their order; whole histories whose batches are permuted element-wise give the identical tree; and a canonical tree is a function of its leaf set alone (it is the specification trie, which has no notion of batching, parallelism or order).",
         "note": TB + "PARTIAL: sub-batch splitting and the equivalence of parallel insertion are decided by the matrix runs; compile-time features by two binaries.",
     },
     "C20": {
